@@ -8,7 +8,7 @@ def note(name, text):
 
 
 def install_all(interp):
-    from . import builtins_, containers, ints, jsonm, mp, regex, strings, structm, misc
+    from . import builtins_, containers, ext, ints, jsonm, mp, regex, strings, structm, misc
 
-    for m in (builtins_, strings, ints, containers, regex, structm, mp, jsonm, misc):
+    for m in (builtins_, strings, ints, containers, regex, structm, mp, jsonm, ext, misc):
         m.install(interp)
